@@ -30,7 +30,9 @@ EXPLANATION = (
     "2048*26*51 and gcd(26,51) == 1 are folded constants. The quantifier over all frame numbers is covered because "
     "the compared objects are the formulas themselves, not their values. A local helper that is handed the caller's own "
     "struct gsm_time pointer is substituted (fields renamed, early returns kept as conditions), Python assertions / defensive "
-    "raises are conditional arms decided by intervals over FN in 0..2715647; every rule group is a deferred stage. The normal form "
+    "raises are conditional arms decided exactly over FN in 0..2715647 (interval solution of the guard -- comparisons, chained comparisons, "
+    "`in range(a, b)` alike -- else a fold over every frame number): a guard no frame number of the hyperframe satisfies is dropped, a frame "
+    "number that reaches a raise is reported with it; every rule group is a deferred stage. The normal form "
     "includes the division identities a - c*(a div c) == a mod c, (x mod (m*b)) div b == (x div b) mod m, (x div a) div b == "
     "x div (a*b), m*(x div (m*b)) + (x div b) mod m == x div b (a decomposition from the position inside the superframe); the "
     "dividend intervals are intersected with the interval of the expression's normal form (fn - (fn / c) * c is in 0..c-1). A "
